@@ -27,7 +27,9 @@ type arrInfo struct {
 	kind string // int str obj
 }
 
-var words = []string{"alpha", "beta", "gamma", "delta", "x", "Hello", "w9", "true", "false", "7", "12", "a b", "zz-top", "mixedCase"}
+var words = []string{"alpha", "beta", "gamma", "delta", "x", "Hello", "w9", "true", "false", "7", "12", "a b", "zz-top", "mixedCase",
+	// values that are escaped in the document's text
+	"say \"hi\"", "tab\there", "back\\slash"}
 
 func genInt(r *prng) string {
 	switch r.intn(8) {
@@ -86,6 +88,8 @@ func genDoc(r *prng) *docInfo {
 	add(root, "", "n", jNum(genInt(r)))
 	add(root, "", "m", jNum(strconv.Itoa(r.intn(6))))
 	add(root, "", "z", jNum("0"))
+	add(root, "", "big", jNum(strconv.Itoa(300+r.intn(100000))))
+	add(root, "", "bigs", jStr(strconv.Itoa(300+r.intn(100000))))
 	add(root, "", "f", jNum(genDec(r)))
 	add(root, "", "t", jBool(true))
 	add(root, "", "fl", jBool(false))
@@ -162,6 +166,11 @@ func genDoc(r *prng) *docInfo {
 	mkArr("a", 1+r.intn(4), "int")
 	mkArr("b", 1+r.intn(3), "str")
 	mkArr("objs", 1+r.intn(3), "obj")
+	// empty containers, after non-empty ones (only bound and looked at, never ranged over:
+	// known finding KF-C05-childless)
+	root.Keys = append(root.Keys, "ea", "eo")
+	root.Xs = append(root.Xs, &JV{K: "arr"}, &JV{K: "obj"})
+	d.vals["ea"], d.vals["eo"] = root.Xs[len(root.Xs)-2], root.Xs[len(root.Xs)-1]
 	d.missing = []string{"missing", "o.nokey", "o.deep.q", "s.sub", "nul.x"}
 	d.doc = root
 	return d
@@ -678,6 +687,15 @@ func (g *pgen) stmt() {
 		if a == "" || b == "" {
 			a, b = "st.Id", "st.Name"
 		}
+		if r.chance(1, 4) {
+			// a coalesce group as a branch operand
+			if r.bool() {
+				a = "jso.{nokey|s|s2}"
+			} else {
+				b = "jso.o.{zz|name}"
+			}
+			g.count("ternary with a coalesce operand")
+		}
 		g.emit(pick(r, []string{"obj.Id", "obj.Name", "ts.S"}) + " = " + p + " " + pick(r, cmpOps) + " " + strconv.Itoa(r.intn(30)) + " ? " + a + " : " + b)
 		g.count("ternary")
 	case choice < 14 && g.opts.switches:
@@ -806,6 +824,17 @@ func (g *pgen) cloopHeader(v string) string {
 	// limits from the document or a static variable now and then
 	if r.chance(1, 4) && c.step == "++" && (c.op == "<" || c.op == "<=") {
 		c.init, c.lim = "0", "jso.m"
+	}
+	if r.chance(1, 12) && c.op != "!=" {
+		// (a string bound reads as 0: with != the loop could be infinite under Go's reading too)
+		// a bound that is not a number: the loop fails, whatever its other bound is
+		bad := pick(r, []string{"fvar", "bvar", "svar", "nosuchvar"})
+		if r.bool() {
+			c.init = bad
+		} else {
+			c.lim = bad
+		}
+		g.count("counter loop with a non-numeric bound")
 	}
 	return "for " + v + " := " + c.init + "; " + v + " " + c.op + " " + c.lim + "; " + v + c.step + " {"
 }
